@@ -37,7 +37,7 @@ mod verif_c13_stream {
         (r.is_ok(), g.len(), g.contains_key(&0x40621D), g.contains_key(&0x4840D6))
     }
 
-    //@ob id=C13.stream.junk_between flags=noassert mem=high props=C13 tier=thorough kind=harness fns=reader.rs:read_lines bounded=3-concrete-streams
+    //@ob id=C13.stream.junk_between flags=noassert mem=high props=C13 tier=dropped kind=harness fns=reader.rs:read_lines bounded=3-concrete-streams
     //@region the real read_lines on concrete streams: two valid DF17 squitters of two aircraft (a) alone, (b) preceded / separated / followed by junk lines - bytes that are not valid UTF-8, NUL, a lone CR, an empty line, a 13-digit line: processing does not end early and the table is the same as for the clean stream
     #[kani::proof]
     #[kani::unwind(130)]
